@@ -2738,11 +2738,18 @@ func c06R8(c *Ctx, r *Report) {
 			})
 		}
 		scan(fn)
-		// the type test may live in a predicate of its own (one level)
+		// the type test may live in a predicate of its own (one level), possibly wrapped once more
 		for _, cl := range callsIn(fn.Decl.Body, false) {
 			if g := callee(info, cl); g != nil && g.Pkg() == fn.Obj.Pkg() && g != fn.Obj {
 				if gf := c.FnOf(g); gf != nil && gf.Decl != nil && gf.Decl.Body != nil {
 					scan(gf)
+					for _, cl2 := range callsIn(gf.Decl.Body, false) {
+						if h := callee(gf.Info(), cl2); h != nil && h.Pkg() == fn.Obj.Pkg() && h != g && h != fn.Obj {
+							if hf := c.FnOf(h); hf != nil && hf.Decl != nil && hf.Decl.Body != nil {
+								scan(hf)
+							}
+						}
+					}
 				}
 			}
 		}
